@@ -24,7 +24,7 @@ from onnx_ir import external_data as ed
 from mc import common
 
 COMPONENTS = [".", "..", "data.bin", "sub", "d2.bin", "link_in", "link_out", "dir_out", "dir_in", "secret.bin", "outside", "base",
-              "base-evil", "x.bin", "hard_out", "hard_in", "", "missing", "link_hard_out"]
+              "base-evil", "x.bin", "hard_out", "hard_in", "", "missing", "link_hard_out", "link_evil", "dir_evil"]
 
 _OPENS: list = []
 _WATCH = [False]
@@ -67,6 +67,9 @@ def make_tree(root):
     os.symlink("hard_out", os.path.join(b, "link_hard_out"))  # an allowed in-directory symlink in front of a hard link to an outside file
     os.symlink("hard_in", os.path.join(b, "link_hard_in"))
     os.symlink("base", os.path.join(root, "baselink"))
+    # in-directory symlinks (file and directory) whose targets live in the sibling that shares the base's name as a string prefix
+    os.symlink(os.path.join("..", "base-evil", "x.bin"), os.path.join(b, "link_evil"))
+    os.symlink(os.path.join("..", "base-evil"), os.path.join(b, "dir_evil"))
     # inside names that also exist outside, to make ".." traversals land on real files
     w(os.path.join(root, "data.bin"), "ROOTDATA")
     return b
@@ -110,7 +113,7 @@ def extra_locations(root):
     return [os.path.join(b, "data.bin"), os.path.join(root, "outside", "secret.bin"), "/etc/hostname", b + "/../outside/secret.bin",
             "data.bin/", "sub//d2.bin", "sub/./d2.bin", "./data.bin", "sub/../data.bin", "sub/../../outside/secret.bin", "../base/data.bin",
             "../base-evil/x.bin", "..//outside/secret.bin", "dir_out/secret.bin", "dir_in/d2.bin", "dir_in/../data.bin", "dir_out/../base/data.bin",
-            "link_out/", "hard_out", "hard_in", "link_hard_out", "link_hard_in", "sub/../link_hard_out", "sub", ".", "", "..", "data.bin\x00x" if False else "data.bin x"]
+            "link_out/", "link_evil", "dir_evil/x.bin", "sub/../dir_evil/x.bin", "dir_evil/../base-evil/x.bin", "hard_out", "hard_in", "link_hard_out", "link_hard_in", "sub/../link_hard_out", "sub", ".", "", "..", "data.bin\x00x" if False else "data.bin x"]
 
 
 class _Timeout(Exception):
